@@ -80,8 +80,38 @@ func (p *Persister) Serialize() ([]byte, error) {
 
 // Deserialize decodes the state and cache from storage, and applies them to the persister.
 func (p *Persister) Deserialize(b []byte) error {
-	err := cbor.Unmarshal(b, p)
-	return err
+	// Decode into fresh objects: decoding straight into a state and cache that have been used would
+	// merge the stored maps into the existing ones and keep every field the record does not carry.
+	var o Persister
+	err := cbor.Unmarshal(b, &o)
+	if err != nil {
+		return err
+	}
+	if o.State != nil {
+		if p.State == nil {
+			p.State = o.State
+		} else {
+			p.State.Code = o.State.Code
+			p.State.ExecPath = o.State.ExecPath
+			p.State.BitSize = o.State.BitSize
+			p.State.SizeIdx = o.State.SizeIdx
+			p.State.Flags = o.State.Flags
+			p.State.Moves = o.State.Moves
+			p.State.Language = o.State.Language
+		}
+	}
+	if o.Memory != nil {
+		if p.Memory == nil {
+			p.Memory = o.Memory
+		} else {
+			p.Memory.CacheSize = o.Memory.CacheSize
+			p.Memory.CacheUseSize = o.Memory.CacheUseSize
+			p.Memory.Cache = o.Memory.Cache
+			p.Memory.Sizes = o.Memory.Sizes
+			p.Memory.LastValue = o.Memory.LastValue
+		}
+	}
+	return nil
 }
 
 // Save persists the state and cache to the db.Db backend.
